@@ -155,6 +155,10 @@ class SkipOp(Exception):
     pass
 
 
+def json_path(p):
+    return repr(p)
+
+
 # --------------------------------------------------------------------------- #
 # proposers: (rng, S, pid, feat) -> (args, kwargs) or None
 
@@ -742,6 +746,7 @@ class Session:
         self.known = data.get("known") or []
         self.known_hits = {}
         self.other_props = {}
+        self.all_viols = []
 
     # -- environment ---------------------------------------------------- #
 
@@ -880,6 +885,7 @@ class Session:
                 return
         if self.viol is None:
             self.viol = {"prop": prop, "sig": sig, "detail": detail, "key": key}
+        self.all_viols.append({"prop": prop, "sig": sig, "detail": detail[:400], "key": key})
         self.log.log("violation", prop=prop, sig=sig, op=op)
 
     def all_violations(self):
@@ -973,12 +979,13 @@ class Session:
         if self.checks.get("fwd"):
             self.check_fwd(name, pid, rec["out"])
         if self.checks.get("valid"):
-            from .oracles.validator import validate
+            from .oracles.validator import validate, binder_kind
 
-            bad_in = {s for s, _ in validate(p._loopir_proc)}
-            for s, d in validate(r0._loopir_proc):
-                if s not in bad_in:
-                    self.violate("C04", s, f"after {name}: {d}", name)
+            bad_in = {x[0] for x in validate(p._loopir_proc)}
+            for sg, d, sym in validate(r0._loopir_proc):
+                if sg not in bad_in:
+                    self.violate("C04", sg, f"after {name}: {d}", name, {"binder": binder_kind(p._loopir_proc, sym)})
+                    self.tainted.add(rec["out"])
                     break
                 self.probes.hit("valid_inherited")
         if self.sem is not None and rec["out"] not in self.tainted:
@@ -993,11 +1000,19 @@ class Session:
             in_ir=self.procs[pid_in]._loopir_proc,
         )
         self.n_compared += 1
+        if vs:
+            # a procedure that already misbehaves cannot be the yardstick for later steps
+            self.tainted.add(pid_out)
         for v in vs:
             prop = v["prop"]
             if name in ("replace",) and prop in ("C01", "C04"):
                 prop = "C05"
-            self.violate(prop, v["sig"], f"after {name}{tag}: {v['detail']}", name + tag)
+            extra = None
+            if v["sig"] == "unbound-use":
+                from .oracles.validator import binder_kind
+
+                extra = {"binder": binder_kind(self.procs[pid_in]._loopir_proc, v["detail"].split(" ")[0])}
+            self.violate(prop, v["sig"], f"after {name}{tag}: {v['detail']}", name + tag, extra)
 
     def check_fwd(self, name, pid_in, pid_out):
         from .oracles.forwarding import check_forwarding
@@ -1012,6 +1027,18 @@ class Session:
                 self.procs[src], self.procs[pid_out], self.probes, max_stmts=120,
                 want_gaps=(hop == 0), want_blocks=(hop == 0),
             )
+            if vs and hop > 0:
+                # only what this step introduced: cursors whose forwarding to the
+                # input procedure was already wrong were reported at that step
+                from .kernel import Probes
+
+                old = check_forwarding(self.procs[src], self.procs[pid_in], Probes(), max_stmts=120,
+                                       want_gaps=False, want_blocks=False)
+                bad_paths = {json_path(v["path"]) for v in old}
+                kept = [v for v in vs if json_path(v["path"]) not in bad_paths]
+                if len(kept) != len(vs):
+                    self.probes.hit("fwd_inherited_violation", len(vs) - len(kept))
+                vs = kept
             if vs:
                 v = vs[0]
                 self.violate(
@@ -1184,6 +1211,7 @@ class Session:
             "n_compared": self.n_compared,
             "known_hits": self.known_hits,
             "other_props": self.other_props,
+            "all_violations": self.all_viols,
             "events": self.log.events if self.log.keep else None,
         }
 
@@ -1247,7 +1275,7 @@ def generate_and_run(seed: int, cfg: dict, log_keep=False) -> dict:
                 rec["fault"] = {"kind": r_fault.choice(["F3c", "F3i"]), "u": r_fault.random()}
             data["ops"].append(rec)
             S.apply(rec)
-            if S.viol:
+            if S.viol and not cfg.get("survey"):
                 break
             continue
         name = r_ops.choices(ops_allowed, wl)[0]
@@ -1280,7 +1308,7 @@ def generate_and_run(seed: int, cfg: dict, log_keep=False) -> dict:
         S.apply(rec)
         if rec["out"] in S.procs and S.root_pid(rec["out"]) == "p":
             live.append(rec["out"])
-        if S.viol:
+        if S.viol and not cfg.get("survey"):
             break
     if S.checks.get("pure") and S.viol is None:
         S.check_pure("at end of", "session", with_str=True)
